@@ -346,6 +346,15 @@ def check(model: Model, run: Run) -> None:
         run.cannot('only %d renderers found' % n_r)
 
     # ------------------------------------------------------------------ R4 self-comparison
+    run.rule(
+        'C15.R8',
+        'the fixed fields of a decoder do not overlap: two different fields decoded from constant positions of one buffer on one '
+        'path read disjoint (or identical) byte ranges - the encoders lay the fields end to end, so a field read on top of another '
+        'one is read at the wrong offset and the round trip changes its value',
+        floor=17,
+    )
+    _r8_field_overlap(model, run, folder)
+
     run.rule('C15.R4', 'no __eq__ compares a field of self with the same field of self (a typo that makes distinct objects equal)', floor=41)
     n_e = 0
     for fi in model.funcs.values():
@@ -387,3 +396,143 @@ def _eq_basis(model: Model, eq: FuncInfo, depth: int = 0) -> str:
 def _is_stub(f: FuncInfo) -> bool:
     body = [s for s in f.node.body if not (isinstance(s, ast.Expr) and isinstance(s.value, ast.Constant))]
     return len(body) == 1 and isinstance(body[0], ast.Raise) and 'NotImplementedError' in norm(body[0])
+
+
+# ---------------------------------------------------------------------------------------------- R8
+def _const_reads(model: Model, folder: Folder, fi: FuncInfo, buf: str) -> list[tuple[dict, list[tuple[str, int, int, ast.AST]]]]:
+    """For every path through the leading straight-line / if-structured part of the function (until the buffer is rebound or a
+    loop starts): the constant byte ranges read from `buf`, each with the name it is assigned to.  Tests that do not fold are
+    explored both ways, one truth value per distinct test text on a path (so `x if c else y` and `if c:` stay correlated)."""
+
+    class Need(Exception):
+        pass
+
+    def ints(env: dict) -> dict:
+        return {k: v for k, v in env.items() if isinstance(v, int)}
+
+    def decide(test: ast.AST, env: dict, conds: dict) -> bool:
+        t = folder.fold(test, fi.module, fi.cls, ints(env))
+        if t is UNKNOWN or not isinstance(t, (bool, int)):
+            k = norm(test)
+            if k not in conds:
+                raise Need(k)
+            return conds[k]
+        return bool(t)
+
+    def ev(e: ast.AST, env: dict, conds: dict):
+        if isinstance(e, ast.IfExp):
+            return ev(e.body if decide(e.test, env, conds) else e.orelse, env, conds)
+        v = folder.fold(e, fi.module, fi.cls, ints(env))
+        return v if isinstance(v, int) and not isinstance(v, bool) else None
+
+    def reads(expr: ast.AST, env: dict, conds: dict) -> list[tuple[int, int, ast.AST]]:
+        out = []
+        for s_ in ast.walk(expr):
+            if isinstance(s_, ast.Subscript) and dotted(s_.value) == buf:
+                if isinstance(s_.slice, ast.Slice):
+                    if s_.slice.upper is None or s_.slice.step is not None:
+                        continue
+                    lo = 0 if s_.slice.lower is None else ev(s_.slice.lower, env, conds)
+                    hi = ev(s_.slice.upper, env, conds)
+                    if lo is not None and hi is not None and 0 <= lo < hi:
+                        out.append((lo, hi, s_))
+                else:
+                    i = ev(s_.slice, env, conds)
+                    if i is not None and i >= 0:
+                        out.append((i, i + 1, s_))
+        return out
+
+    def run_block(sts: list[ast.stmt], env: dict, conds: dict, acc: list) -> tuple[str | None, dict]:
+        for st in sts:
+            if isinstance(st, (ast.Assign, ast.AnnAssign)) and st.value is not None:
+                tg = st.targets[0] if isinstance(st, ast.Assign) else st.target
+                for lo, hi, node in reads(st.value, env, conds):
+                    acc.append((norm(tg), lo, hi, node))
+                for nm in [x.id for x in ast.walk(tg) if isinstance(x, ast.Name) and isinstance(x.ctx, ast.Store)]:
+                    if nm == buf:
+                        return 'stop', env
+                    env = dict(env)
+                    env[nm] = ev(st.value, env, conds) if isinstance(tg, ast.Name) else None
+            elif isinstance(st, ast.AugAssign) and isinstance(st.target, ast.Name):
+                for lo, hi, node in reads(st.value, env, conds):
+                    acc.append((norm(st.target), lo, hi, node))
+                if st.target.id == buf:
+                    return 'stop', env
+                cur, inc = env.get(st.target.id), ev(st.value, env, conds)
+                env = dict(env)
+                env[st.target.id] = (cur + inc) if isinstance(cur, int) and isinstance(inc, int) and isinstance(st.op, ast.Add) else None
+            elif isinstance(st, ast.If):
+                r, env = run_block(st.body if decide(st.test, env, conds) else st.orelse, env, conds, acc)
+                if r is not None:
+                    return r, env
+            elif isinstance(st, (ast.Return, ast.Raise)):
+                return 'exit', env
+            elif isinstance(st, (ast.For, ast.AsyncFor, ast.While, ast.Try, ast.With, ast.AsyncWith)):
+                return 'stop', env
+        return None, env
+
+    results = []
+    todo: list[dict] = [{}]
+    while todo and len(results) < 64:
+        conds = todo.pop()
+        try:
+            acc: list = []
+            run_block(fi.node.body, {}, conds, acc)
+            results.append((conds, acc))
+        except Need as k:
+            for v in (True, False):
+                todo.append(dict(conds, **{k.args[0]: v}))
+        if len(todo) > 256:
+            break
+    return results
+
+
+def _r8_field_overlap(model: Model, run: Run, folder: Folder) -> None:
+    import itertools
+
+    n_paths = 0
+    n_funcs = 0
+    reported: set[tuple[str, str, str]] = set()
+    for q, fi in sorted(model.funcs.items()):
+        if not any(p in q for p in ('.bgp.message.update.attribute.', '.bgp.message.update.nlri.', '.bgp.message.open.')):
+            continue
+        if fi.name.startswith(('make_', 'pack', '_pack')):
+            continue
+        params = [a.arg for a in fi.node.args.args if a.arg not in ('self', 'cls')]
+        bufs = params[:1]
+        if any(isinstance(n, ast.Attribute) and n.attr == '_packed' and isinstance(n.value, ast.Name) and n.value.id == 'self' for n in ast.walk(fi.node)):
+            bufs.append('self._packed')
+        counted = False
+        for buf in bufs:
+            for conds, acc in _const_reads(model, folder, fi, buf):
+                if len(acc) < 2:
+                    continue
+                n_paths += 1
+                if not counted:
+                    counted = True
+                    n_funcs += 1
+                    run.analysed(fi)
+                bad = None
+                for (t1, a1, b1, n1), (t2, a2, b2, n2) in itertools.combinations(acc, 2):
+                    if t1 != t2 and a1 < b2 and a2 < b1 and (a1, b1) != (a2, b2):
+                        bad = (t1, a1, b1, t2, a2, b2, n2)
+                        break
+                if bad is None:
+                    continue
+                key = (q, bad[0], bad[3])
+                if key in reported:
+                    continue
+                reported.add(key)
+                run.violation(
+                    q,
+                    'fields %s and %s are decoded from overlapping bytes' % (bad[0], bad[3]),
+                    fi.loc(bad[6]),
+                    '%s is read from bytes [%d:%d] and %s from [%d:%d] of the same buffer%s: the encoder lays the fields end to end, so '
+                    'one of the two offsets is wrong and what ExaBGP encoded does not decode to the same value'
+                    % (bad[0], bad[1], bad[2], bad[3], bad[4], bad[5], (' when ' + ', '.join('%s is %s' % kv for kv in conds.items())) if conds else ''),
+                )
+        if counted and not any(k[0] == q for k in reported):
+            run.ok('%s: fixed fields disjoint' % short(q))
+    run.extra['field_overlap_paths'] = n_paths
+    if n_funcs < 17:
+        run.cannot('only %d decoders with two or more constant-position fields found' % n_funcs)
